@@ -41,4 +41,87 @@ theorem file_block_for_key {V} (L : Nat) (m : Assoc V) (f : FstIndex) (hf : FstC
     simp only [Option.bind_some]
     exact writer_store_get addrs hch hok id hlt
 
+/-- the key lists of the blocks of a dictionary -/
+def keyBlocks {V} (d : Dict V) : List (List Key) := d.blocks.map (fun b => keys b.entries)
+
+theorem keyBlocks_flatten {V} (L : Nat) (m : Assoc V) : (keyBlocks (build L m)).flatten = keys m := by
+  have hent := mkBlocks_entries (blocksOf (fun e : Key × V => e.1) L m) 0
+  have hfl : (blocksOf (fun e : Key × V => e.1) L m).flatten = m := blocksOf_flatten _ L m
+  have : keyBlocks (build L m) = ((build L m).blocks.map (·.entries)).map keys := by
+    simp [keyBlocks, List.map_map, Function.comp]
+  rw [this, build_blocks_eq, hent]
+  unfold keys
+  rw [← List.map_flatten, hfl]
+
+theorem build_firstOrd_ordStart {V} (L : Nat) (m : Assoc V) (i : Nat) (b : Block V)
+    (h : (build L m).blocks[i]? = some b) : b.firstOrd = ordStart (keyBlocks (build L m)) i := by
+  have h' := h
+  rw [build_blocks_eq] at h'
+  rw [mkBlocks_firstOrd_take 0 _ i b h', ← build_blocks_eq]
+  simp only [flatE, ordStart, keyBlocks, List.length_flatten, List.map_take, keys, List.map_map,
+    Nat.zero_add]
+  congr 2
+  apply List.map_congr_left
+  intro x _
+  simp [Function.comp]
+
+/-- `Dictionary::term_ord_or_next` on the bytes of a whole written file (several blocks), for
+every FST meeting the stated contract: equals the operation of the block model -/
+theorem file_term_ord_or_next {V} (L : Nat) (m : Assoc V) (hs : SortedMap m) (f : FstIndex)
+    (hf : FstContract f) (hkeys : f.keys = (build L m).blocks.map (·.sep))
+    (hmulti : (build L m).single = false)
+    (skip : List UInt8 → List UInt8) (ps : List (List UInt8))
+    (hlen : ps.length = (build L m).blocks.length)
+    (hskip : ∀ (i : Nat) p b, ps[i]? = some p → (build L m).blocks[i]? = some b →
+      skip p = encodeBlockKeys (keys b.entries))
+    (hpsz : ∀ p ∈ ps, p ≠ [] ∧ p.length + 1 < 4294967296)
+    (hok : WriterStoreOk (frameAddrs (keyBlocks (build L m)) ps))
+    (fst : List UInt8) (numTerms version : Nat)
+    (hfst0 : fst.length ≠ 0) (hfst : fst.length < 18446744073709551616)
+    (hdata : (frameBlocks ps).length < 18446744073709551616)
+    (hn : numTerms < 18446744073709551616) (hv : version < 4294967296) (k : Key) :
+    fileTermOrdOrNext f.geFirst skip
+        (openFile (finishFile (frameBlocks ps)
+          (fst ++ storeBytes (writerStore (frameAddrs (keyBlocks (build L m)) ps)) ++ u64enc fst.length)
+          numTerms version)) k
+      = some ((build L m).termOrdOrNext k) := by
+  have hcount : (frameAddrs (keyBlocks (build L m)) ps).length = (build L m).blocks.length := by
+    rw [frameAddrs_length]; simp [keyBlocks]
+  have hblk := file_block_for_key L m f hf hkeys hmulti (frameAddrs (keyBlocks (build L m)) ps)
+    (frameAddrs_chained _ _) hok hcount (frameBlocks ps) fst numTerms version hfst0 hfst hdata hn hv k
+  have hopen := openFile_finish (frameBlocks ps)
+    (fst ++ storeBytes (writerStore (frameAddrs (keyBlocks (build L m)) ps)) ++ u64enc fst.length)
+    numTerms version hdata hn hv
+  rw [hopen] at hblk ⊢
+  unfold fileTermOrdOrNext
+  rw [hblk]
+  unfold Dict.termOrdOrNext
+  cases hl : (build L m).locateKey k with
+  | none => simp
+  | some id =>
+    have hid : id < (build L m).blocks.length := by
+      unfold Dict.locateKey at hl
+      simp only [hmulti, Bool.false_eq_true, if_false] at hl
+      exact findIdx?_lt _ _ _ hl
+    have hbget : (build L m).blocks[id]? = some (build L m).blocks[id] := List.getElem?_eq_getElem hid
+    have hat : (build L m).blockAt id = some (build L m).blocks[id] := by
+      unfold Dict.blockAt
+      simp [hmulti, hbget]
+    have hkl : (keyBlocks (build L m)).length = (build L m).blocks.length := by simp [keyBlocks]
+    have haddr : (frameAddrs (keyBlocks (build L m)) ps)[id]?
+        = some ⟨ordStart (keyBlocks (build L m)) id, frameStart ps id, frameStart ps (id + 1)⟩ := by
+      unfold frameAddrs
+      rw [List.getElem?_map, List.getElem?_range (by rw [hkl]; exact hid)]
+      rfl
+    have hpget : ps[id]? = some ps[id] := List.getElem?_eq_getElem (by rw [hlen]; exact hid)
+    obtain ⟨hp1, hp2⟩ := hpsz _ (List.mem_of_getElem? hpget)
+    have hinc : StrictInc (keys (build L m).blocks[id].entries) := by
+      have hall : ∀ b ∈ keyBlocks (build L m), StrictInc b :=
+        strictInc_of_mem_flatten (by rw [keyBlocks_flatten]; exact hs)
+      apply hall
+      unfold keyBlocks
+      exact List.mem_map.mpr ⟨_, List.getElem_mem hid, rfl⟩
+    simp only [Option.bind_some, haddr, hat, frame_slice ps id _ hpget, readBlocks_one _ hp1 hp2]
+    rw [hskip id _ _ hpget hbget, decodeBlockKeys_encode _ hinc, build_firstOrd_ordStart L m id _ hbget]
+
 end TantivyModel.SSTable
